@@ -16,7 +16,8 @@
        the others);
      - a destructor event names the place the object had;
      - an element disappears only through a removal: insertions take nothing away, a remove
-       operation at most one element;
+       operation at most one element, and that one is the element the operation names (by
+       position, front, back, key or payload);
      - no two live elements share a place;  the other container is not touched;
      - PoolList / PoolMap never copy, move or assign an element;
      - item blocks are only released by the destructor. *)
@@ -124,8 +125,21 @@ Definition removal_budget (o : op) : option nat :=
   end.
 Definition missing (prev now : list node) : list node :=
   filter (fun p => negb (existsb (fun n => (n_id n =? n_id p)%nat) now)) prev.
-Definition removed_ok (o : op) (prev_sel now_sel : list node) : bool :=
-  match removal_budget o with None => true | Some b => (length (missing prev_sel now_sel) <=? b)%nat end.
+(* ... and WHICH element a removal takes: the one at the given position, the first, the last, one with
+   the given key (the given payload for List::remove(const T&)) *)
+Definition takes (kd : kind) (o : op) (prev_sel : list node) (m : node) : bool :=
+  match o with
+  | ORemAt pos => match nth_error prev_sel pos with Some p => (n_id m =? n_id p)%nat | None => false end
+  | ORemFront => match prev_sel with p :: _ => (n_id m =? n_id p)%nat | [] => false end
+  | ORemBack => match nth_error prev_sel (length prev_sel - 1) with Some p => (n_id m =? n_id p)%nat | None => false end
+  | ORemKey k => match kd with KList => n_val m =? k | KPoolList => false | _ => n_key m =? k end
+  | _ => true
+  end.
+Definition removed_ok (kd : kind) (o : op) (prev_sel now_sel : list node) : bool :=
+  match removal_budget o with
+  | None => true
+  | Some b => (length (missing prev_sel now_sel) <=? b)%nat && forallb (takes kd o prev_sel) (missing prev_sel now_sel)
+  end.
 
 Definition max_id (l : list node) : nat := fold_right (fun n m => Nat.max (S (n_id n)) m) O l.
 
@@ -146,7 +160,7 @@ Definition check_step (kd : kind) (st : sstate) (o : op) (now : obs) (ev : list 
       (if sel then nodes_eqb (ob_a now) (ob_a prev) else nodes_eqb (ob_b now) (ob_b prev)) &&
       forallb (elem_ok kd o (negb sel) (ss_next st) ev (ob_a prev) (ob_b prev)) (ob_a now) &&
       forallb (elem_ok kd o sel (ss_next st) ev (ob_b prev) (ob_a prev)) (ob_b now) &&
-      (if sel then removed_ok o (ob_b prev) (ob_b now) else removed_ok o (ob_a prev) (ob_a now))
+      (if sel then removed_ok kd o (ob_b prev) (ob_b now) else removed_ok kd o (ob_a prev) (ob_a now))
   end.
 
 Definition next_sstate (st : sstate) (o : op) (now : obs) : sstate :=
